@@ -185,7 +185,9 @@ func verifC11_accept() {
 		r = &http.Request{Method: "GET", ProtoMajor: 1, ProtoMinor: 1, Header: http.Header{}, Host: vString("host")}
 		hv = map[string][]string{"Connection": {"keep-alive, Upgrade"}, "Upgrade": {"websocket"}, "Sec-Websocket-Version": {"13"}, "Sec-Websocket-Key": {vString("key")}}
 		if vParam("symKey", 1) == 0 {
-			hv["Sec-Websocket-Key"] = []string{"dGhlIHNhbXBsZSBub25jZQ=="}
+			// a canonical key, and a key that decodes to 16 bytes without being the canonical spelling of them (the
+			// unused low bits of the last symbol are set): the Accept value is a function of the key TEXT
+			hv["Sec-Websocket-Key"] = []string{[]string{"dGhlIHNhbXBsZSBub25jZQ==", "MDEyMzQ1Njc4OWFiY2RlZh=="}[vChoose("validKey", 2)]}
 		}
 		if focus == 3 {
 			r.Host = "example.com"
